@@ -400,6 +400,17 @@ AddChecks(m, e) ==
                              [] ob.scheme \in {5, 129} -> al + ob.par <= 256
                              [] OTHER -> TRUE,
               <<e.o, Obj(m, e.o).scheme, Obj(m, e.o).L, Obj(m, e.o).E, Obj(m, e.o).B>> >>,
+         \* every source block needs a number that fits the field of the object's own scheme: SBN of 16 bits (No-Code),
+         \* 24 bits (RS GF(2^8)), 32 bits (FEC 129); Z of 16 bits (Raptor) and 8 bits (RaptorQ)
+         <<"C01", "accepted-an-object-with-more-blocks-than-its-scheme-can-number",
+              LET ob == Obj(m, e.o) IN
+              ob.L <= 0 \/ LET nb == N(ob.L, ob.E, ob.B) IN
+                           CASE ob.scheme = 0 -> nb <= 65536
+                             [] ob.scheme = 1 -> nb <= 65535
+                             [] ob.scheme = 6 -> nb <= 255
+                             [] ob.scheme = 5 -> nb <= 16777216
+                             [] OTHER -> TRUE,
+              <<e.o, Obj(m, e.o).scheme, Obj(m, e.o).L, Obj(m, e.o).E, Obj(m, e.o).B>> >>,
          <<"C15", "allocated-toi-is-zero", e.toix # "0", e.o>>,
          <<"C12", "add-after-set-complete-accepted", ~m.complete, e.o>> >>
        \o ProjChecks(StepAdd(m, e), e.st)
